@@ -1004,6 +1004,25 @@ fn merge_struct_validity(
     }
 }
 
+/// Offsets of a list array re-based to start at zero, so that they index the array's
+/// [`ListArrayExt::trimmed_values`]
+fn trimmed_offsets<O: OffsetSizeTrait>(
+    list: &GenericListArray<O>,
+) -> arrow_buffer::OffsetBuffer<O> {
+    let offsets = list.offsets();
+    let first = offsets[0];
+    if first == O::zero() {
+        return offsets.clone();
+    }
+    arrow_buffer::OffsetBuffer::new(
+        offsets
+            .iter()
+            .map(|o| *o - first)
+            .collect::<Vec<_>>()
+            .into(),
+    )
+}
+
 fn merge_list_child_values(
     child_field: &Field,
     left_values: ArrayRef,
@@ -1026,13 +1045,13 @@ fn merge_list_child_values(
                 .expect("right list values should be ListArray");
             let merged_values = merge_list_child_values(
                 grandchild.as_ref(),
-                left_list.values().clone(),
-                right_list.values().clone(),
+                left_list.trimmed_values(),
+                right_list.trimmed_values(),
             );
             let merged_validity = merge_struct_validity(left_list.nulls(), right_list.nulls());
             Arc::new(ListArray::new(
                 grandchild.clone(),
-                left_list.offsets().clone(),
+                trimmed_offsets(left_list),
                 merged_values,
                 merged_validity,
             )) as ArrayRef
@@ -1048,13 +1067,13 @@ fn merge_list_child_values(
                 .expect("right list values should be LargeListArray");
             let merged_values = merge_list_child_values(
                 grandchild.as_ref(),
-                left_list.values().clone(),
-                right_list.values().clone(),
+                left_list.trimmed_values(),
+                right_list.trimmed_values(),
             );
             let merged_validity = merge_struct_validity(left_list.nulls(), right_list.nulls());
             Arc::new(LargeListArray::new(
                 grandchild.clone(),
-                left_list.offsets().clone(),
+                trimmed_offsets(left_list),
                 merged_values,
                 merged_validity,
             )) as ArrayRef
@@ -1321,7 +1340,7 @@ fn merge_with_schema(
                             merge_struct_validity(left_list.nulls(), right_list.nulls());
                         let merged_list = ListArray::new(
                             child_field.clone(),
-                            left_list.offsets().clone(),
+                            trimmed_offsets(left_list),
                             merged_values,
                             merged_validity,
                         );
@@ -1346,7 +1365,7 @@ fn merge_with_schema(
                             merge_struct_validity(left_list.nulls(), right_list.nulls());
                         let merged_list = LargeListArray::new(
                             child_field.clone(),
-                            left_list.offsets().clone(),
+                            trimmed_offsets(left_list),
                             merged_values,
                             merged_validity,
                         );
@@ -1931,6 +1950,23 @@ mod tests {
         assert_eq!(width_values.value(0), 300);
         assert_eq!(width_values.value(1), 200);
         assert!(width_values.is_null(2)); // width is null when right struct was null
+    }
+
+    #[test]
+    fn test_merge_with_schema_sliced_list() {
+        // offsets of a sliced list column do not start at zero
+        let list_type = DataType::List(Arc::new(Field::new("item", DataType::Int32, true)));
+        let list = ListArray::new(
+            Arc::new(Field::new("item", DataType::Int32, true)),
+            OffsetBuffer::new(vec![0, 2, 3, 6].into()),
+            Arc::new(Int32Array::from(vec![1, 2, 3, 4, 5, 6])),
+            None,
+        );
+        let schema = Arc::new(Schema::new(vec![Field::new("l", list_type, true)]));
+        let batch = RecordBatch::try_new(schema.clone(), vec![Arc::new(list)]).unwrap();
+        let sliced = batch.slice(1, 2);
+        let merged = sliced.merge_with_schema(&sliced, &schema).unwrap();
+        assert_eq!(merged.column(0).as_ref(), sliced.column(0).as_ref());
     }
 
     #[test]
